@@ -322,7 +322,74 @@ def observe(lst, names=False):
         if names:
             dg += names_digest(lst._table[t])
         tabs.append((t, dg))
+    if names:
+        # the SET of tables the reader offers is part of what it shows: through table_names, and as attributes
+        # (lst.element ...) that are the very objects of the table dictionary
+        offered = tuple(lst.table_names)
+        attrs = tuple(n for n in TABLE_ATTRIBUTES if getattr(lst, n, None) is not None)
+        same = tuple(n for n in attrs if getattr(lst, n) is lst._table.get(n))
+        tabs.append(('(tables offered)', repr((offered, attrs, same))))
     return (int(lst._index), repr(float(lst._time)), int(lst._step), tuple(tabs))
+
+
+TABLE_ATTRIBUTES = ('element', 'element1', 'element2', 'connection', 'primary', 'generation')
+
+
+def row_picks(n):
+    out = []
+    for r in (0, n // 2, n - 1):
+        if 0 <= r < n and r not in out:
+            out.append(r)
+    return out
+
+
+def read_accessors(lst):
+    """What the table accessors return: for every table, the first/middle/last row read by name, by non-negative
+    row number and by negative row number, and the first and last column.  {(table, form): digest}.  Reading is
+    an action of its own in C07 (a table may memoise what it hands out), never part of a silent observation."""
+    out = {}
+    for t in sorted(lst._table):
+        tb = lst._table[t]
+        n = tb.num_rows
+        acc = {'name': [], 'index': [], 'negative-index': [], 'column': []}
+        for r in row_picks(n):
+            for form, key in (('name', tb.row_name[r]), ('index', r), ('negative-index', r - n)):
+                row = tb[key]
+                acc[form].append(None if row is None else sorted((str(k), repr(v)) for k, v in row.items()))
+        for c in (tb.column_name[0], tb.column_name[-1]):
+            col = tb[c]
+            acc['column'].append(None if col is None else hashlib.blake2b(np.ascontiguousarray(col).tobytes(),
+                                                                          digest_size=8).hexdigest())
+        for form, v in acc.items():
+            out[(t, form)] = '%016x' % core.h64(v)
+    return out
+
+
+def table_kinds_by_result_set(path):
+    """For a TOUGH2-family listing: per result set, the set of distinct table header kinds printed in it (first
+    three header words, e.g. ('ELEM.', 'INDEX', 'P') / ('ELEM.', 'INDEX', 'X1') / ('ELEM1', 'ELEM2', 'INDEX')).
+    Independent line scan; used only to pick files for the quick tier."""
+    sc = scan_of(path)
+    if sc.family != 'TOUGH2':
+        return []
+    with open(path, 'rb') as f:
+        lines = [l.decode('latin-1') for l in f.read().splitlines()]
+    bounds = [s.line for s in sc.sets] + [len(lines)]
+    out = []
+    for a, b in zip(bounds[:-1], bounds[1:]):
+        kinds = set()
+        for l in lines[a:b]:
+            w = l.split()[:3]
+            if len(w) == 3 and w[0].upper() in ('ELEM.', 'ELEM', 'ELEM1', 'ELEMENT') and \
+                    any(x.upper() in ('INDEX', 'IND.') for x in w[1:]):
+                kinds.add(tuple(x.upper() for x in w))
+        out.append(kinds)
+    return out
+
+
+def tables_vary(path):
+    k = table_kinds_by_result_set(path)
+    return any(x != k[0] for x in k[1:]) if k else False
 
 
 def truncated_copy(path, k, tag=''):
